@@ -995,3 +995,197 @@ Example tsr_marks_exercised :
   model_outcome (fst (roots_lookupI big_fuel tsr_roots (S2B "GET") [] (S2B "/v/x") false [] [] hw0)) =
     Some (true, true, S2B "/{a}/x/").
 Proof. vm_compute. split; reflexivity. Qed.
+
+(* ---------- 9. Tree.insert keeps "no path holds more wildcards than maxParams" ---------- *)
+Definition W (k : bytes) : nat := List.length (parse_wildcard k).
+
+(* counts from the three kinds of parser state *)
+Lemma pw_state_counts : forall b p nm,
+  let D := List.length (pw b p PwDefault nm) in
+  let P := List.length (pw b p PwParam nm) in
+  let Q := List.length (pw b p PwCatch nm) in
+  let K := List.length (pw b p PwSkip nm) in
+  P = Q /\ D <= P /\ P <= S D /\ D <= K /\ K <= P /\ P <= S K.
+Proof.
+  induction b as [|c r IH]; intros p nm; cbn [parse_wildcard_go List.length]; [lia|].
+  destruct (Ascii.eqb c "}") eqn:E1; destruct (Ascii.eqb c "*") eqn:E2; destruct (Ascii.eqb c "{") eqn:E3;
+    cbn [List.length];
+    pose proof (IH (S p) []) as I1; pose proof (IH (S p) (c :: nm)) as I2; cbn zeta in I1, I2;
+    repeat match goal with
+    | |- context [List.length (pw r ?q ?st ?n)] =>
+        lazymatch n with
+        | [] => fail
+        | _ => rewrite (pw_len r q (S p) st n [])
+        end
+    end;
+    repeat match goal with
+    | H : context [List.length (pw r ?q ?st ?n)] |- _ =>
+        lazymatch n with
+        | [] => fail
+        | _ => rewrite (pw_len r q (S p) st n []) in H
+        end
+    end; lia.
+Qed.
+
+Lemma pw_app : forall a b p st nm,
+  List.length (pw a p st nm) + W b <= List.length (pw (a ++ b) p st nm).
+Proof.
+  induction a as [|c a IH]; intros b p st nm.
+  - cbn [app parse_wildcard_go List.length]. unfold W, parse_wildcard.
+    pose proof (pw_state_counts b p nm) as H; cbn zeta in H.
+    rewrite (pw_len b 0 p PwDefault [] nm). destruct st; lia.
+  - cbn [app]. destruct st; cbn [parse_wildcard_go].
+    + destruct (Ascii.eqb c "*"); [apply IH|]. destruct (Ascii.eqb c "{"); apply IH.
+    + destruct (Ascii.eqb c "}"); cbn [List.length]; [specialize (IH b (S p) PwDefault []); lia|apply IH].
+    + destruct (Ascii.eqb c "}"); cbn [List.length]; [specialize (IH b (S p) PwDefault []); lia|apply IH].
+    + apply IH.
+Qed.
+
+Lemma W_app : forall a b, W a + W b <= W (a ++ b).
+Proof. intros; unfold W at 1 3, parse_wildcard. apply pw_app. Qed.
+
+Lemma W_split : forall k n, W (firstn n k) + W (skipn n k) <= W k.
+Proof. intros. rewrite <- (firstn_skipn n k) at 3. apply W_app. Qed.
+
+(* ---------- maxl under the list operations of tree.go ---------- *)
+Lemma maxl_insert_sorted : forall f n l, maxl f (insert_sorted n l) = Nat.max (f n) (maxl f l).
+Proof.
+  intros f n l; unfold maxl; induction l as [|m l IH]; cbn [insert_sorted fold_right]; [reflexivity|].
+  destruct (bytes_ltb (nkey m) (nkey n)); cbn [fold_right]; [rewrite IH|]; lia.
+Qed.
+
+Lemma maxl_sort : forall f l, maxl f (sort_nodes l) = maxl f l.
+Proof.
+  intros f l; induction l as [|m l IH]; [reflexivity|].
+  cbn [sort_nodes fold_right]. fold (sort_nodes l). rewrite maxl_insert_sorted, IH. reflexivity.
+Qed.
+
+Lemma maxl_app1 : forall f l c, maxl f (l ++ [c]) = Nat.max (maxl f l) (f c).
+Proof. intros f l c; unfold maxl; induction l as [|m l IH]; cbn [app fold_right]; [lia|rewrite IH; lia]. Qed.
+
+Lemma maxl_replace : forall f l i c, maxl f (replace_nth l i c) <= Nat.max (maxl f l) (f c).
+Proof.
+  intros f l; unfold maxl; induction l as [|m l IH]; intros [|i] c; cbn [replace_nth fold_right]; try lia.
+  specialize (IH i c). lia.
+Qed.
+
+Lemma wdepth_node : forall k r ch, wdepth (Node k r ch) = W k + maxl wdepth ch.
+Proof. reflexivity. Qed.
+
+Lemma wdepth_new_node : forall k r ch, wdepth (new_node k r ch) = W k + maxl wdepth ch.
+Proof. intros; unfold new_node; rewrite wdepth_node, maxl_sort; reflexivity. Qed.
+
+(* common_prefix is a prefix of both *)
+Lemma common_prefix_l : forall a b, firstn (List.length (common_prefix a b)) a = common_prefix a b.
+Proof.
+  induction a as [|x a IH]; intros [|y b]; cbn [common_prefix List.length firstn]; try reflexivity.
+  destruct (Ascii.eqb x y); cbn [List.length firstn]; [rewrite IH|]; reflexivity.
+Qed.
+Lemma common_prefix_r : forall a b, firstn (List.length (common_prefix a b)) b = common_prefix a b.
+Proof.
+  induction a as [|x a IH]; intros [|y b]; cbn [common_prefix List.length firstn]; try reflexivity.
+  destruct (Ascii.eqb x y) eqn:E; cbn [List.length firstn]; [|reflexivity].
+  apply Ascii.eqb_eq in E; subst y. rewrite IH; reflexivity.
+Qed.
+
+Lemma new_leaf_wdepth : forall ri cm suffix n add, new_leaf ri cm suffix = (n, add) -> wdepth n <= W suffix.
+Proof.
+  unfold new_leaf; intros ri cm suffix n add H.
+  destruct (Nat.ltb 0 (ri_hostsplit ri) && Nat.ltb cm (ri_hostsplit ri)); injection H as <- _.
+  - rewrite !wdepth_new_node. unfold maxl; cbn [fold_right]. rewrite wdepth_new_node. unfold maxl; cbn [fold_right].
+    pose proof (W_split suffix (ri_hostsplit ri - cm)). lia.
+  - rewrite wdepth_node. unfold maxl; cbn [fold_right]. lia.
+Qed.
+
+Lemma maxc_node : forall k r ch, maxc (Node k r ch) = maxl wdepth ch.
+Proof. reflexivity. Qed.
+Lemma maxc_new_node : forall k r ch, maxc (new_node k r ch) = maxl wdepth ch.
+Proof. intros; unfold new_node; rewrite maxc_node, maxl_sort; reflexivity. Qed.
+
+Lemma maxl_1 : forall f (a : node), maxl f [a] = Nat.max (f a) 0.
+Proof. reflexivity. Qed.
+Lemma maxl_2 : forall f (a b : node), maxl f [a; b] = Nat.max (f a) (Nat.max (f b) 0).
+Proof. reflexivity. Qed.
+
+Lemma ins_wdepth : forall f ri n cm depth rest n' d,
+  ins f ri n cm depth rest = InsOk n' d ->
+  nkey n' = nkey n /\ maxc n' <= Nat.max (maxc n) (W rest).
+Proof.
+  induction f as [|f IH]; intros ri n cm depth rest n' d H; [discriminate|].
+  cbn [ins] in H. destruct rest as [|c0 rest0]; [discriminate|]. set (rest := c0 :: rest0) in *.
+  destruct (find_child n c0) as [i|].
+  2:{ destruct (new_leaf ri cm rest) as [child add] eqn:El. injection H as <- _.
+      pose proof (new_leaf_wdepth _ _ _ _ _ El). split; [reflexivity|].
+      rewrite maxc_new_node, maxl_app1. unfold maxc. lia. }
+  destruct (nth_error (nchildren n) i) as [c|] eqn:Ec; [|discriminate].
+  pose proof (child_wdepth _ _ _ Ec) as Hcw.
+  set (cp := common_prefix rest (nkey c)) in *. set (lcp := List.length cp) in *.
+  assert (Hupd : forall c', maxc (Node (nkey n) (nroute n) (replace_nth (nchildren n) i c')) <= Nat.max (maxc n) (wdepth c')).
+  { intros c'. rewrite maxc_node. apply maxl_replace. }
+  assert (Hrest : W cp + W (skipn lcp rest) <= W rest).
+  { pose proof (W_split rest lcp) as Hs. unfold lcp, cp in *. rewrite common_prefix_l in Hs. exact Hs. }
+  assert (Hkey : W cp + W (skipn lcp (nkey c)) <= W (nkey c)).
+  { pose proof (W_split (nkey c) lcp) as Hs. unfold lcp, cp in *. rewrite common_prefix_r in Hs. exact Hs. }
+  rewrite (wdepth_eq c) in Hcw. fold (W (nkey c)) in Hcw. change (List.length (nparams c)) with (W (nkey c)) in Hcw.
+  destruct (Nat.eqb lcp (List.length (nkey c))) eqn:E1.
+  - apply Nat.eqb_eq in E1.
+    assert (Hcp : cp = nkey c).
+    { unfold lcp, cp in *. rewrite <- (common_prefix_r rest (nkey c)), E1. apply firstn_all. }
+    destruct (Nat.eqb lcp (List.length rest)) eqn:E2.
+    + destruct (nroute c); [discriminate|]. injection H as <- _. split; [reflexivity|].
+      specialize (Hupd (Node (nkey c) (Some (ri_route ri)) (nchildren c))).
+      rewrite wdepth_node in Hupd. fold (maxc c) in Hupd. lia.
+    + destruct (ins f ri c (cm + lcp) (S depth) (skipn lcp rest)) as [c' d'|] eqn:Ei; [|discriminate].
+      injection H as <- _. split; [reflexivity|].
+      destruct (IH _ _ _ _ _ _ _ Ei) as [Hk Hm].
+      specialize (Hupd c'). rewrite (wdepth_eq c') in Hupd. change (List.length (nparams c')) with (W (nkey c')) in Hupd.
+      rewrite Hk in Hupd. rewrite Hcp in Hrest. lia.
+  - destruct (Nat.eqb lcp (List.length rest)) eqn:E2.
+    + injection H as <- _. split; [reflexivity|].
+      specialize (Hupd (new_node cp (Some (ri_route ri)) [Node (skipn lcp (nkey c)) (nroute c) (nchildren c)])).
+      rewrite wdepth_new_node, maxl_1 in Hupd.
+      rewrite wdepth_node in Hupd. fold (maxc c) in Hupd. lia.
+    + destruct (prefix_conflict (Nat.leb (cm + lcp) (ri_hostsplit ri)) cp); [discriminate|].
+      destruct (new_leaf ri (cm + lcp) (skipn lcp rest)) as [n1 add] eqn:El. injection H as <- _.
+      pose proof (new_leaf_wdepth _ _ _ _ _ El) as Hn1. split; [reflexivity|].
+      specialize (Hupd (new_node cp None [n1; Node (skipn lcp (nkey c)) (nroute c) (nchildren c)])).
+      rewrite wdepth_new_node, maxl_2 in Hupd.
+      rewrite wdepth_node in Hupd. fold (maxc c) in Hupd. lia.
+Qed.
+
+Lemma wroots_replace : forall rs i root', wroots (replace_nth rs i root') <= Nat.max (wroots rs) (maxc root').
+Proof. intros; unfold wroots; apply maxl_replace. Qed.
+
+(* psLen (computed by NewRoute) counts the wildcards of the pattern; then insert keeps the invariant
+   "no root-to-leaf path holds more wildcards than maxParams", which params_bounded assumes *)
+Theorem insert_keeps_wroots : forall t m ri t',
+  insert t m ri = ROk t' ->
+  W (rpat (ri_route ri)) <= ri_pslen ri ->
+  wroots (t_roots t) <= t_maxparams t ->
+  wroots (t_roots t') <= t_maxparams t'.
+Proof.
+  unfold insert; intros t m ri t' H Hps Hinv.
+  destruct (method_index (t_roots t) m) as [i|].
+  - destruct (nth_error (t_roots t) i) as [root|] eqn:Er; [|discriminate].
+    destruct (ins (S (List.length (rpat (ri_route ri)))) ri root 0 0 (rpat (ri_route ri))) as [root' d|[p|ps]] eqn:Ei;
+      try discriminate.
+    injection H as <-. cbn [t_roots t_maxparams].
+    destruct (ins_wdepth _ _ _ _ _ _ _ _ Ei) as [_ Hm].
+    pose proof (wroots_replace (t_roots t) i root').
+    assert (maxc root <= wroots (t_roots t)) by (unfold wroots; eapply maxl_nth; eauto). lia.
+  - destruct (nth_error (t_roots t ++ [empty_root m]) (List.length (t_roots t))) as [root|] eqn:Er; [|discriminate].
+    destruct (ins (S (List.length (rpat (ri_route ri)))) ri root 0 0 (rpat (ri_route ri))) as [root' d|[p|ps]] eqn:Ei;
+      try discriminate.
+    injection H as <-. cbn [t_roots t_maxparams].
+    destruct (ins_wdepth _ _ _ _ _ _ _ _ Ei) as [_ Hm].
+    pose proof (wroots_replace (t_roots t ++ [empty_root m]) (List.length (t_roots t)) root') as Hr.
+    assert (Hw : wroots (t_roots t ++ [empty_root m]) = wroots (t_roots t)).
+    { unfold wroots. rewrite maxl_app1. cbn. lia. }
+    assert (maxc root <= wroots (t_roots t ++ [empty_root m])) by (unfold wroots; eapply maxl_nth; eauto). lia.
+Qed.
+
+(* non-vacuity: inserting /a/{x}/*{y} into the empty tree *)
+Example insert_keeps_wroots_example :
+  exists t', insert empty_txn (S2B "GET") {| ri_route := {| rpat := S2B "/a/{x}/*{y}"; rid := 0%N |}; ri_pslen := 2; ri_hostsplit := 0 |} = ROk t'
+             /\ wroots (t_roots t') = 2 /\ t_maxparams t' = 2.
+Proof. eexists. vm_compute. repeat split. Qed.
